@@ -78,7 +78,7 @@ Qed.
 (* the closing bid: every account, as a sum of transfers *)
 Lemma close_ledger cf lk a s who amt0 wd twa s' r :
   good_cfg cf lk -> good_auction cf lk a -> 0 <= twa < 9223372036854775808 -> 0 <= l_fee lk ->
-  place_bid cf lk a s who amt0 wd twa = Ok (s', None, r) ->
+  place_bid_core cf lk a s who amt0 wd twa = Ok (s', None, r) ->
   exists ki pen, 0 <= ki /\ 0 <= pen /\ ki + pen = l_fee lk /\
   forall k,
     led s' k = led s k
@@ -95,7 +95,7 @@ Lemma close_ledger cf lk a s who amt0 wd twa s' r :
 Proof.
   intros GC GA Htwa Hfee H.
   pose proof (place_bid_amounts _ _ _ _ _ _ _ _ _ _ _ GC GA Htwa H) as (Hpaid & Hrecv & _ & Hne & He & _).
-  unfold place_bid in H.
+  unfold place_bid_core in H.
   destruct (Z.leb_spec amt0 0); [discriminate|]. destruct wd; [discriminate|].
   apply obind_ok in H as (q & _ & H). apply obind_ok in H as (qb & _ & H).
   set (exh := negb (q + qb <=? a_coll a)) in *.
@@ -150,12 +150,12 @@ Ltac eqbs := repeat match goal with |- context [?a =? ?b] => destruct (Z.eqb_spe
 (* the app reserve: touched only by the collateral-exhausted close, debited exactly the shortfall,
    and only when it covers it (repaired WithdrawAppReserveFundsFn) *)
 Lemma reserve_spec cf lk a s who amt wd twa s' a' r :
-  place_bid cf lk a s who amt wd twa = Ok (s', a', r) ->
+  place_bid_core cf lk a s who amt wd twa = Ok (s', a', r) ->
   (r_exh r = false -> r_topup r = 0 /\ rsv s' = rsv s) /\
   (r_exh r = true -> exists rv, rsv s = Some rv /\ rsv s' = Some (rv - r_topup r) /\ 0 <= rv - r_topup r).
 Proof.
   intros E. split; [exact (proj1 (topup_zero _ _ _ _ _ _ _ _ _ _ _ E))|].
-  unfold place_bid in E.
+  unfold place_bid_core in E.
   destruct (amt <=? 0); [discriminate|]. destruct wd; [discriminate|].
   apply obind_ok in E as (q & _ & E). apply obind_ok in E as (qb & _ & E).
   destruct (_ || _).
@@ -179,7 +179,7 @@ Qed.
 (* a collateral-exhausted close against a reserve that does not cover the shortfall is not a
    successful bid (so, by [step], nothing changes) *)
 Lemma short_reserve_fails cf lk a s who amt wd twa s' a' r rv :
-  place_bid cf lk a s who amt wd twa = Ok (s', a', r) -> r_exh r = true -> rsv s = Some rv -> r_topup r <= rv.
+  place_bid_core cf lk a s who amt wd twa = Ok (s', a', r) -> r_exh r = true -> rsv s = Some rv -> r_topup r <= rv.
 Proof.
   intros E Hx Hr. destruct (proj2 (reserve_spec _ _ _ _ _ _ _ _ _ _ _ E) Hx) as (rv' & Hr' & _ & H).
   rewrite Hr in Hr'. injection Hr' as <-. lia.
@@ -190,7 +190,7 @@ Qed.
    destinations *)
 Lemma close_complete cf lk a s who amt0 wd twa s' r :
   good_cfg cf lk -> good_auction cf lk a -> 0 <= twa < 9223372036854775808 -> 0 <= l_fee lk -> 0 <= who ->
-  place_bid cf lk a s who amt0 wd twa = Ok (s', None, r) ->
+  place_bid_core cf lk a s who amt0 wd twa = Ok (s', None, r) ->
   r_paid r + r_topup r = a_debt a /\
   led s' AUC_C = led s AUC_C - a_coll a /\
   led s' AUC_D - xfee s' = led s AUC_D - xfee s - (l_target lk - a_debt a) /\
@@ -227,13 +227,13 @@ Qed.
 (* a partial bid: only the bidder and the auction account move; reserve and fee book untouched *)
 Lemma partial_ledger cf lk a s who amt0 wd twa s' b r :
   good_cfg cf lk -> good_auction cf lk a -> 0 <= twa < 9223372036854775808 ->
-  place_bid cf lk a s who amt0 wd twa = Ok (s', Some b, r) ->
+  place_bid_core cf lk a s who amt0 wd twa = Ok (s', Some b, r) ->
   xfee s' = xfee s /\ rsv s' = rsv s /\
   forall k, led s' k = led s k + delta k (BID_D who) AUC_D (r_paid r) + delta k AUC_C (BID_C who) (r_recv r).
 Proof.
   intros GC GA Htwa H.
   pose proof (place_bid_amounts _ _ _ _ _ _ _ _ _ _ _ GC GA Htwa H) as (Hpaid & Hrecv & _).
-  unfold place_bid in H.
+  unfold place_bid_core in H.
   destruct (Z.leb_spec amt0 0); [discriminate|]. destruct wd; [discriminate|].
   apply obind_ok in H as (q & _ & H). apply obind_ok in H as (qb & _ & H).
   destruct (_ || _) eqn:Hbr.
@@ -252,7 +252,7 @@ Qed.
 (* the reserve record stays non-negative and backed by the liquidation module's balance *)
 Lemma reserve_backed cf lk a s who amt0 wd twa s' a' r rv :
   good_cfg cf lk -> good_auction cf lk a -> 0 <= twa < 9223372036854775808 -> 0 <= l_fee lk -> 0 <= who ->
-  place_bid cf lk a s who amt0 wd twa = Ok (s', a', r) ->
+  place_bid_core cf lk a s who amt0 wd twa = Ok (s', a', r) ->
   rsv s = Some rv -> 0 <= rv <= led s LIQ_D ->
   exists rv', rsv s' = Some rv' /\ 0 <= rv' <= led s' LIQ_D /\ rv - rv' = led s LIQ_D - led s' LIQ_D.
 Proof.
@@ -286,21 +286,21 @@ Definition w_s (reserve : Z) : bstate := mkS (w_led reserve) (Some reserve) 0.
 (* before the repair this bid succeeded with nothing transferred, reserve record -439072 and the
    auction account 440072 short; now it is rejected and the life is unchanged *)
 Lemma reserve_short_rejected :
-  place_bid w_cf w_lk w_au (w_s 1000) 0 27429945 false 1000000 = Err 3 /\
+  place_bid_core w_cf w_lk w_au (w_s 1000) 0 27429945 false 1000000 = Err 3 /\
   forall p rc t, step w_cf w_lk (mkLife (w_s 1000) (Some w_au) p rc t) (Bid 0 27429945 false 1000000)
                  = mkLife (w_s 1000) (Some w_au) p rc t.
 Proof.
-  assert (E : place_bid w_cf w_lk w_au (w_s 1000) 0 27429945 false 1000000 = Err 3) by (vm_compute; reflexivity).
+  assert (E : place_bid_core w_cf w_lk w_au (w_s 1000) 0 27429945 false 1000000 = Err 3) by (vm_compute; reflexivity).
   split; [exact E|]. intros. unfold step. cbn [f_a f_s]. rewrite E. reflexivity.
 Qed.
 
 (* with a reserve that covers the shortfall (440072) the same bid closes and everything is backed *)
 Lemma reserve_covered_closes :
-  exists s' r, place_bid w_cf w_lk w_au (w_s 440072) 0 27429945 false 1000000 = Ok (s', None, r) /\
+  exists s' r, place_bid_core w_cf w_lk w_au (w_s 440072) 0 27429945 false 1000000 = Ok (s', None, r) /\
     r_exh r = true /\ r_paid r = 8703243 /\ r_topup r = 440072 /\ rsv s' = Some 0 /\ led s' LIQ_D = 0 /\
     led s' INI_D = 8313000 /\ xfee s' = 831300 /\ led s' AUC_D = 831300 /\ led s' AUC_C = 0.
 Proof.
-  destruct (place_bid w_cf w_lk w_au (w_s 440072) 0 27429945 false 1000000) as [[[s' [a'|]] r]| |] eqn:E;
+  destruct (place_bid_core w_cf w_lk w_au (w_s 440072) 0 27429945 false 1000000) as [[[s' [a'|]] r]| |] eqn:E;
     vm_compute in E; try discriminate.
   exists s', r. split; [reflexivity|]. injection E as <- <-. vm_compute. repeat split; reflexivity.
 Qed.
@@ -316,12 +316,12 @@ Definition x_led : ledger := fun k => if k =? 0 then 568000 else if k =? 7 then 
 Definition x_s : bstate := mkS x_led (Some 1125899906842624) 0.
 
 Lemma external_closes :
-  exists s' r, place_bid x_cf x_lk x_au x_s 0 493593 false 1000000 = Ok (s', None, r) /\
+  exists s' r, place_bid_core x_cf x_lk x_au x_s 0 493593 false 1000000 = Ok (s', None, r) /\
     ext_incentive x_cf x_lk = 4487 /\ r_paid r = 493592 /\ r_recv r = 329061 /\
     led s' INI_D = 448720 + 4487 /\ xfee s' = 40385 /\ led s' AUC_D = 40385 /\ led s' AUC_C = 0 /\
     led s' OWN_C = 238939 /\ led s' NUL_D = 0.
 Proof.
-  destruct (place_bid x_cf x_lk x_au x_s 0 493593 false 1000000) as [[[s' [a'|]] r]| |] eqn:E;
+  destruct (place_bid_core x_cf x_lk x_au x_s 0 493593 false 1000000) as [[[s' [a'|]] r]| |] eqn:E;
     vm_compute in E; try discriminate.
   exists s', r. split; [reflexivity|]. injection E as <- <-. vm_compute. repeat split; reflexivity.
 Qed.
